@@ -126,12 +126,20 @@ def gen_reject(tier, rng):
         p["exponents"], p["coefficients"] = [list(r) for r in rows], p["coefficients"][: len(rows)]
         yield {"p": p, "kind": "dup_names_unused", "unused": k, "retain": rng.choice([[False, False], [True, False], [None, None]]),
                "global": [rng.random() < 0.5, False]}
+    # a repeated exponent row whose coefficient is zero everywhere (such a term is dropped unless coefficients are retained): still
+    # a duplicate, whichever of the two rows comes first and whatever the retain setting
+    for _ in range(count(tier, 30, 200)):
+        p = rand_poly(rng, maxterms=3)
+        yield {"p": p, "kind": "dup_rows_zero", "row": rng.randrange(len(p["exponents"])), "first": rng.random() < 0.5,
+               "retain": rng.choice([[False, False], [False, True], [None, None], [True, True]]),
+               "global": [False if rng.random() < 0.7 else True, rng.random() < 0.5]}
 
 
 @check("C03", "construct.rejects_duplicates", gen_reject, functions=("numpoly.postprocess_attributes", "numpoly.polynomial_from_attributes"),
        note="bounded: duplicate exponent rows / duplicate names / wrong name count / length mismatch must raise "
             "PolynomialConstructionError; valid attributes must not; under every retain_* setting given as argument or as global "
-            "option, also when the duplicated name sits on a column no term uses")
+            "option, also when the duplicated name sits on a column no term uses and when the repeated exponent row has an all-zero "
+            "coefficient (first or last in the list)")
 def rejects(inp):
     import numpoly
     from numpoly.construct.clean import PolynomialConstructionError
@@ -143,6 +151,10 @@ def rejects(inp):
     if kind == "dup_rows":
         E.append(list(E[0]))
         C.append(C[0] + 1)
+    elif kind == "dup_rows_zero":
+        k = inp["row"]
+        E.insert(0 if inp["first"] else len(E), list(E[k]))
+        C.insert(0 if inp["first"] else len(C), C[k] * 0)
     elif kind == "dup_names":
         if len(names) < 2:
             return None
